@@ -307,6 +307,12 @@ func (p DHCP4) AppendOptions(options DHCP4Options, order []byte) int {
 		byte(DHCP4OptionStaticRoute),
 		byte(DHCP4OptionRouter),
 	}
+	for i, code := range order { // RFC 2132 3.3: the subnet mask MUST precede the router option, whatever order was requested
+		if code == byte(DHCP4OptionRouter) {
+			order = append(append(append(make([]byte, 0, len(order)+4), order[:i]...), byte(DHCP4OptionSubnetMask)), order[i:]...)
+			break
+		}
+	}
 	order = append(order, optionsReplyParametersList...)
 
 	// first copy parameters in order
